@@ -269,7 +269,7 @@ class _Partial(dict):
         raise _Need(key)
 
 
-def compare_trees(code, spec, leaf_eq, alias=None, assume=None, int_subjects=None, cap=200000):
+def compare_trees(code, spec, leaf_eq, alias=None, assume=None, int_subjects=None, cap=40000, seconds=25.0):
     """Compare two decision trees.  Returns (mismatches [(description, code_leaf, spec_leaf)], number of explored cases).
 
     The truth table is explored lazily: conditions are evaluated under a partial assignment of regions and the exploration
@@ -283,11 +283,15 @@ def compare_trees(code, spec, leaf_eq, alias=None, assume=None, int_subjects=Non
     regions = dict(space.variables())
     mism, seen = [], set()
     rows = [0]
+    import time as _time
+    t0 = _time.time()
 
     def explore(val):
         rows[0] += 1
-        if rows[0] > cap:
-            raise AnalysisBroken(f"decision table too large (more than {cap} cases)")
+        if rows[0] > cap or (rows[0] % 256 == 0 and _time.time() - t0 > seconds):
+            raise AnalysisBroken(f"decision table too large (more than {cap} cases or {seconds:.0f} s); cannot decide")
+        if len(mism) >= 8:
+            return          # enough counterexamples to report
         try:
             if assume is not None and not space.truth(assume, val):
                 return
